@@ -58,3 +58,40 @@ void *h_udpserverwr(void *arg) {
     h_udp_is_writer = 1;
     return udpserverwr(arg);
 }
+
+/* addreq <fam 4|6> <addr hex a> <port a> <addr hex b> <port b>: the REAL (static) addr_equal of udp.c, the test by which a
+   datagram is attributed to an existing association */
+int h_udp_op(const char *op, int argc, char **argv, FILE *out) {
+    struct sockaddr_storage sa, sb;
+    int fam, la, lb;
+    uint8_t *a, *b;
+    if (strcmp(op, "addreq"))
+        return 0;
+    if (argc != 5)
+        return 0;
+    fam = atoi(argv[0]);
+    a = hx(argv[1], &la);
+    b = hx(argv[3], &lb);
+    memset(&sa, 0, sizeof(sa));
+    memset(&sb, 0, sizeof(sb));
+    if (fam == 4 && la == 4 && lb == 4) {
+        struct sockaddr_in *x = (struct sockaddr_in *)&sa, *y = (struct sockaddr_in *)&sb;
+        x->sin_family = y->sin_family = AF_INET;
+        memcpy(&x->sin_addr, a, 4);
+        memcpy(&y->sin_addr, b, 4);
+        x->sin_port = htons(atoi(argv[2]));
+        y->sin_port = htons(atoi(argv[4]));
+    } else if (fam == 6 && la == 16 && lb == 16) {
+        struct sockaddr_in6 *x = (struct sockaddr_in6 *)&sa, *y = (struct sockaddr_in6 *)&sb;
+        x->sin6_family = y->sin6_family = AF_INET6;
+        memcpy(&x->sin6_addr, a, 16);
+        memcpy(&y->sin6_addr, b, 16);
+        x->sin6_port = htons(atoi(argv[2]));
+        y->sin6_port = htons(atoi(argv[4]));
+    } else
+        return 0;
+    free(a);
+    free(b);
+    fprintf(out, "%d", addr_equal((struct sockaddr *)&sa, (struct sockaddr *)&sb) ? 1 : 0);
+    return 1;
+}
